@@ -468,6 +468,20 @@ class LazyMap:
         raise Unsupported("iteration over a symbolic comprehension")
 
 
+class LazyProduct:
+    """result of a two-generator list comprehension over abstract iterables: fn(a)(b) for a in it1 for b in it2fn(a).
+    Only consumers that know what to do with it (contract stubs recognising an index set) accept it."""
+
+    def __init__(self, kind, fn, it1, it2fn):
+        self.kind, self.fn, self.it1, self.it2fn = kind, fn, it1, it2fn
+
+    def __iter__(self):
+        raise Unsupported("iteration over a symbolic product comprehension")
+
+    def __len__(self):
+        raise Unsupported("len() of a symbolic product comprehension")
+
+
 # ------------------------------------------------------------------------------------------
 # big operators (prefix-sum functions with instantiated unfolding)
 
